@@ -384,6 +384,10 @@ def run_case(case, rec):
                     rec.refuse(f'{nm}: {tn}' if tn in REFUSE else f'{nm}: raised {tn}'); last['verified'] = True; return False
             if tn == 'NotImplementedError' and nm in ('HT', 'ST') and inerts and 'cannot solve for pressure' in msg:
                 rec.refuse(f'{nm}: {tn}'); rec.hit('refused-unverified:' + nm); return False
+            if tn == 'RuntimeError' and ('S' in spec or 'H' in spec) and 'computed an invalid value' in msg:
+                # a property model of the data package evaluated far outside its range by the temperature search of an H / S specification (e.g. the solid heat capacity of glucose at a
+                # temperature where the correlation turns over): a numerical failure inside the solver, counted under the ceiling of unverifiable refusals
+                rec.refuse(f'{nm}: the temperature search evaluated a property model of the data package outside its range (it raised "computed an invalid value")'); rec.hit('refused-unverified:' + nm); return False
             if tn == 'RuntimeError' and 'S' in spec and 'root could not be solved' in msg and noisy_entropy_content(make(case, th)):
                 # the temperature solve on S(T) = target did not converge: the entropy function of these contents is not continuous (measured on the contents, no solver involved)
                 rec.refuse(f'{nm}: the temperature solve failed on contents whose liquid entropy function jumps between adjacent temperatures (thermo dependency)'); rec.hit('refused-unverified:' + nm); return False
@@ -729,6 +733,11 @@ def run_case(case, rec):
                             moved = abs(Vs - vfrac(chk, vidx)) * s.F_mol if flash(chk, T=float(s.T), P=P0) else 0.0
                             obs(f'PS:{cls}:first-order', abs(got - target) / max(8.314462618 * moved * math.log(2.), 1e-300))
                             if abs(got - target) <= 8.314462618 * moved * FIRST_ORDER_FACTOR: sfx = f'/{cls}/first-order-correction-error'
+                            elif cls.startswith('any') and moved > 0.01 * s.F_mol:
+                                # cross-family (strongly non-ideal) contents: the state P/S returned is not the equilibrium state at its own T (an independent T-P flash there moves more than
+                                # 1 % of the stream between the phases: the temperature search ran on a vapour fraction that is not single-valued in T near a heteroazeotrope), so the final
+                                # correction had to move that much material and its neglected mixing entropy exceeds the first-order bound: same recorded mechanism, own key with the class
+                                sfx = f'/{cls}/not-at-equilibrium-at-returned-T'
                         obs(f'PS-stream:{cls}' if fixed_name == 'P' else f'TS-stream:{cls}', abs(got - target) / rng_)
                         rec.check(abs(got - target) <= sbound, 'spec-S', fixed_name + 'S' + sfx, f'vle({fixed}, S={target!r}) on {ids}: stream S = {got!r} (residual {abs(got - target) / rng_:.3g} of S_vap - S_liq)', residual=abs(got - target) / rng_)
                     if 0 < Vs < 1: two_phase = True
